@@ -102,3 +102,12 @@ func ProfileContract(avoid map[string]string) *Profile {
 		MaxServices: 2, MaxMethods: 3, Transport: true, BasePaths: true, Headers: true, QueryOnBody: true,
 		Features: Features(AllFeatures...), AnnotatedNested: true, AnnotateAnyCard: true, MultiWordChild: true, ContractStrict: true, Avoid: avoid}
 }
+
+// ProfileInterop: cross-language calls (TypeScript <-> Go).
+func ProfileInterop(avoid map[string]string) *Profile {
+	return &Profile{Name: "interop", MaxDataMessages: 2, MaxFields: 4, Nested: true, Maps: true, Oneofs: true,
+		Optionals: true, Repeateds: true, Enums: true, Timestamps: true, MessageFields: true,
+		MaxServices: 2, MaxMethods: 3, Transport: true, BasePaths: true, Headers: true, QueryOnBody: false,
+		Features: Features("int64", "nullable", "bytes", "timestamp", "empty", "oneof_disc", "unwrap_root_list", "unwrap_root_map", "unwrap_map_value"),
+		AnnotateAnyCard: true, ContractStrict: false, TSServer: true, Avoid: avoid}
+}
